@@ -135,6 +135,9 @@ def queries(tier):
         add(T, ['pkg:%s/n?checksum=A' % ty, ('hole', 'a', 2), ':,a', ('hole', 'b', 2), ':'])
         add(T, ['pkg:%s/n?checksum=' % ty, ('hole', 'a', 2), 'A:,', ('hole', 'b', 2), 'a:'])
         add(T, ['pkg:%s/n?checksum=sha1:' % ty, ('hole', 'h', 3 if th else 2), ',md5:00'])
+        if T == 'String' or th:
+            for parts in STRUCT_TEMPLATES(1 if th else 0):
+                add(T, [p.replace('pkg:t/', 'pkg:%s/' % ty) if isinstance(p, str) else p for p in parts])
     # typed: unknown / known types in any letter case, maven namespace
     for n in lens(5 if th else 4, 1):
         add('Purl', ['pkg:', ('hole', 'h', n), '/n'])
